@@ -65,6 +65,44 @@ def run(ctx):
     c15.r16_pmf_recognition(ctx, rule="C06.R14")
     # "the documented IPS transform": reward/probability reaches learn and the row as computed -- the reward objects keep what they are given (0 is a value)
     r15_reward_constructors(ctx)
+    r16_ips_per_interaction(ctx)
+
+
+def r16_ips_per_interaction(ctx, rule="C06.R16"):
+    """reward / logged probability: both belong to the interaction at hand.  A decision taken once from the first interaction (hoisted out of the loop) is wrong for
+    every later interaction that differs from it (logged data whose first interaction carries no probability)."""
+    ctx.rule(rule, "OpeRewards.filter, IPS arm: what is stored under the reward target is computed from the current interaction alone -- every name the stored value depends on "
+                   "(transitively, through locals of the loop body) is the loop variable, a local of the loop body, an attribute of self or a module-level name; no local "
+                   "that was bound outside the loop takes part")
+    EF_ = "coba/environments/filters.py"
+    fn = ctx.fn(EF_, "OpeRewards.filter")
+    arms = [x for x in ast.walk(fn) if isinstance(x, ast.If) and any(const_str(k) == "IPS" for k in ast.walk(x.test))]
+    loops = [l_ for a_ in arms for st in a_.body for l_ in ast.walk(st) if isinstance(l_, ast.For)]
+    ctx.floor(rule, "loops over the interactions in the IPS arm", len(loops), 1)
+    fn_locals = {n_.id for n_ in ast.walk(fn) if isinstance(n_, ast.Name) and isinstance(n_.ctx, ast.Store)} | {a_.arg for a_ in fn.args.args}
+    for loop in loops:
+        inner = {n_.id for st in loop.body for n_ in ast.walk(st) if isinstance(n_, ast.Name) and isinstance(n_.ctx, ast.Store)} | {n_.id for n_ in ast.walk(loop.target) if isinstance(n_, ast.Name)}
+        outer = fn_locals - inner - {"self"}
+        defs = {}
+        for st in loop.body:
+            for x in ast.walk(st):
+                if isinstance(x, ast.Assign):
+                    for t in x.targets:
+                        if isinstance(t, ast.Name):
+                            defs.setdefault(t.id, []).append(x.value)
+        stores = [x for st in loop.body for x in ast.walk(st) if isinstance(x, ast.Assign) and any(isinstance(t, ast.Subscript) and "target" in unparse(t.slice).lower() for t in x.targets)]
+        ctx.floor(rule, "stores of the reward target in the IPS loop", len(stores), 1)
+        for x in stores:
+            seen, todo, bad = set(), [x.value], set()
+            while todo:
+                e = todo.pop()
+                for n_ in [n_ for n_ in ast.walk(e) if isinstance(n_, ast.Name) and isinstance(n_.ctx, ast.Load)]:
+                    if n_.id in outer:
+                        bad.add(n_.id)
+                    elif n_.id in defs and n_.id not in seen:
+                        seen.add(n_.id)
+                        todo += defs[n_.id]
+            ctx.ob(rule, EF_, "OpeRewards.filter", x, "the IPS reward of an interaction depends on that interaction only", not bad, detail={"outside locals": sorted(bad)})
 
 
 def r15_reward_constructors(ctx, rule="C06.R15"):
@@ -664,6 +702,9 @@ def r6_wiring(ctx):
 
 
 CONTROLS = [
+    ("IPS decides from the first interaction whether probabilities exist", "coba/environments/filters.py", M.chain(
+        M.insert_before("OpeRewards.filter", lambda st: isinstance(st, ast.If), "has_prob = True"),
+        M.replace_expr("OpeRewards.filter", "interaction.get('probability') or 1", "has_prob and interaction.get('probability') or 1")), "C06.R16"),
     ("a reward value of 0 is read as 'not given'", "coba/primitives.py", M.replace_stmt("BinaryReward.__init__", M.text_has("self._value"), "self._value = value or 1.0"), "C06.R15"),
     ("choicew looks the weight up by equality", "coba/random.py", M.replace_expr("CobaRandom.choicew", "(seq[i], weights[i])", "(seq[i], weights[seq.index(seq[i])])"), "C06.R12"),
     ("positional rewards shortcut guarded by length only", "coba/environments/filters.py", M.replace_expr("Repr.filter", "old[target].actions == old['actions']", "len(old[target].actions) == len(old['actions'])"), "C06.R13"),
